@@ -164,4 +164,105 @@ theorem c11_out_of_range_slot_raises (cfg : RichCfg) (cuwps : List RCuwp) (c : R
               · cases hgo
     exact key cuwps _ u hc (by simp) hr
 
+
+/-! ### switch table and switch numbers -/
+
+/-- the placement loop of the switch rebuild keeps the table's length, and every number it hands out or
+accepts is a position of the table -/
+theorem rebuildSwnm_go_spec (cfg : RichCfg) :
+    ∀ (ss : List RSwitch) (free : List Nat) (tbl : List RSwitch) (ids : List (RSwitch × Nat))
+      (out : List RSwitch) (oids : List (RSwitch × Nat)),
+      (∀ f ∈ free, f < tbl.length) → (∀ p ∈ ids, p.2 < tbl.length) →
+      rebuildSwnm.go ss free tbl ids = .ok (out, oids) →
+      out.length = tbl.length ∧ ∀ p ∈ oids, p.2 < tbl.length := by
+  intro ss
+  induction ss with
+  | nil =>
+    intro free tbl ids out oids _ hids h
+    simp only [rebuildSwnm.go, Except.ok.injEq, Prod.mk.injEq] at h
+    obtain ⟨rfl, rfl⟩ := h
+    exact ⟨rfl, fun p hp => hids p (List.mem_reverse.mp hp)⟩
+  | cons s rest ih =>
+    intro free tbl ids out oids hfree hids h
+    simp only [rebuildSwnm.go] at h
+    split at h
+    · rename_i i _
+      split at h
+      · simp at h
+      · rename_i cur hcur
+        have hi : i < tbl.length := by
+          rcases List.getElem?_eq_some_iff.mp hcur with ⟨hlt, _⟩; exact hlt
+        split at h
+        · have := ih free (tbl.set i s) ((s, i) :: ids) out oids
+            (by simpa using hfree)
+            (by intro p hp; rcases List.mem_cons.mp hp with rfl | hp
+                · simpa using hi
+                · simpa using hids p hp) h
+          simpa using this
+        · have := ih free tbl ((s, i) :: ids) out oids hfree
+            (by intro p hp; rcases List.mem_cons.mp hp with rfl | hp
+                · exact hi
+                · exact hids p hp) h
+          exact this
+    · split at h
+      · simp at h
+      · rename_i f fs
+        have hf : f < tbl.length := hfree f (by simp)
+        have := ih fs (tbl.set f ⟨s.name, some f, 0⟩) ((s, f) :: ids) out oids
+          (by intro x hx; simpa using hfree x (by simp [hx]))
+          (by intro p hp; rcases List.mem_cons.mp hp with rfl | hp
+              · simpa using hf
+              · simpa using hids p hp) h
+        simpa using this
+
+/-- **switch table shape and switch numbers**: a successful switch rebuild yields exactly
+`switchSlots` (256) entries, and every switch number the save will write is a position of that table -/
+theorem c11_swnm_shape_and_ids {cfg : RichCfg} {secs : List RSection} {order : Option (List Nat)}
+    {tbl : List RSwitch} {ids : List (RSwitch × Nat)}
+    (h : rebuildSwnm cfg secs order = .ok (tbl, ids)) :
+    tbl.length = cfg.switchSlots ∧ ∀ p ∈ ids, p.2 < cfg.switchSlots := by
+  have fin : ∀ (ss : List RSwitch) (p : Nat → Bool),
+      rebuildSwnm.go ss ((List.range cfg.switchSlots).filter p)
+        ((List.range cfg.switchSlots).map fun i => (⟨.null, some i, 0⟩ : RSwitch)) [] = .ok (tbl, ids) →
+      tbl.length = cfg.switchSlots ∧ ∀ p ∈ ids, p.2 < cfg.switchSlots := by
+    intro ss p hgo
+    have := rebuildSwnm_go_spec cfg ss _ _ [] tbl ids
+      (by intro f hf; simp only [List.length_map, List.length_range]
+          exact List.mem_range.mp (List.mem_filter.mp hf).1)
+      (by simp) hgo
+    simpa using this
+  unfold rebuildSwnm at h
+  simp only at h
+  split at h
+  · split at h
+    · simp at h
+    · exact fin _ _ h
+  · split at h
+    · simp at h
+    · exact fin _ _ h
+
+/-- **no dangling location id**: the number written for a location that carries an index is written
+only if the location table the save emits holds that very location at that index (`hall`: every entry
+of the emitted table carries its index — the rebuild's output invariant) -/
+theorem c11_location_ids_resolve {ctx : EncCtx} {l : RLoc} {i k : Nat} (hk : l.idx = some k)
+    (hall : ∀ t ∈ ctx.locs, t.idx.isSome = true)
+    (h : locId ctx l = some i) : i = k ∧ ∃ t ∈ ctx.locs, RLoc.same t l = true ∧ t.idx = some k := by
+  unfold locId at h
+  rw [hk] at h
+  simp only at h
+  split at h
+  · rename_i hany
+    cases h
+    refine ⟨rfl, ?_⟩
+    obtain ⟨t, ht, hs⟩ := List.any_eq_true.mp hany
+    refine ⟨t, ht, hs, ?_⟩
+    have hsome := hall t ht
+    cases hti : t.idx with
+    | none => rw [hti] at hsome; simp at hsome
+    | some a =>
+      simp only [RLoc.same, hti, hk, Bool.and_eq_true, beq_iff_eq] at hs
+      have := hs.1.2
+      simpa using this
+  · cases h
+
 end Richchk.Props.C11
